@@ -11,9 +11,20 @@ import (
 
 func maxRankSize() (int, int) {
 	if thorough() {
-		return 4, 3
+		return 4, 4
 	}
 	return 3, 3
+}
+
+// tierShapes: the shapes a single-operand enumeration visits. Quick: every shape of rank <= 3 with sizes <= 3. Thorough:
+// rank <= 4 with sizes <= 4, plus every shape of rank 5 and 6 with sizes <= 2 (the properties quantify over ranks 0..6).
+func tierShapes(minRank int) [][]int {
+	mr, ms := maxRankSize()
+	out := shapes(minRank, mr, ms)
+	if thorough() {
+		out = append(out, shapes(5, 6, 2)...)
+	}
+	return out
 }
 
 /* ---------------- C03: element-wise operations and broadcasting ---------------- */
@@ -39,7 +50,7 @@ func TestElementwise(t *testing.T) {
 		"Cosh":  {func(x tensor.Tensor) tensor.Tensor { return x.Cosh() }, math.Cosh},
 		"Tanh":  {func(x tensor.Tensor) tensor.Tensor { return x.Tanh() }, math.Tanh},
 	}
-	for _, shape := range shapes(0, mr, ms) {
+	for _, shape := range tierShapes(0) {
 		a := randRef(rng, shape, -3, 3)
 		for i := range a.Data {
 			if rng.Intn(4) == 0 {
@@ -345,7 +356,6 @@ func TestReducers(t *testing.T) {
 	r := newReporter("TestReducers")
 	defer r.done(t)
 	rng := rand.New(rand.NewSource(seed()))
-	mr, ms := maxRankSize()
 	type along struct {
 		call func(tensor.Tensor, int) (tensor.Tensor, error)
 		stat func([]float64) float64
@@ -368,7 +378,7 @@ func TestReducers(t *testing.T) {
 		"Var": {func(x tensor.Tensor) float64 { return x.Var() }, sVar}, "Std": {func(x tensor.Tensor) float64 { return x.Std() }, sStd},
 		"Mean": {func(x tensor.Tensor) float64 { return x.Mean() }, sMean},
 	}
-	for _, shape := range shapes(0, mr, ms) {
+	for _, shape := range tierShapes(0) {
 		a := randRef(rng, shape, -5, 5)
 		x := toT(a, false)
 		for name, w := range whole {
